@@ -8,8 +8,8 @@ CONSTANTS
  RouterPeriod = 3
  RouteTTL = 4
  Peers = {1, 2}
- MaxTime = 9
- MaxAtt = 3
+ MaxTime = 6
+ MaxAtt = 2
  RelayKnown = FALSE
  Exps <- E35
  Defect = "none"
